@@ -1,11 +1,11 @@
 #!/bin/bash
-# usage: tools/round2.sh PROP  -- confirm the round-2 seeded changes of PROP and run the check of PROP against each
-P=$1
+# usage: tools/roundn.sh N PROP  -- confirm the round-N seeded changes of PROP (/tmp/seeded_outN/PROP/m1,m2) and run the check against each
+R=$1; P=$2
 mkdir -p /tmp/wt/seedruns
 for K in m1 m2; do
-  SRC=/tmp/seeded_out2/$P/$K
+  SRC=/tmp/seeded_out$R/$P/$K
   [ -d $SRC ] || continue
-  N=r2$K
+  N=r$R$K
   if [ ! -d /verif/seeded/$P-$N ]; then
     python3 /verif/tools/confirm_seed.py $SRC $P $N > /tmp/wt/seedruns/$P-$N.confirm.log 2>&1
   fi
